@@ -124,7 +124,7 @@ pub fn run(seed: u64, thorough: bool, out: &mut Out) {
         out.stat("corpus");
         replay(l, out);
     }
-    let n = if thorough { 6000 } else { 450 };
+    let n = if thorough { 6000 } else { 800 };
     for i in 0..n {
         let mut r = Rng::new(seed, 4, i);
         let fd = r.chance(1, 2);
